@@ -44,10 +44,13 @@ def branch_context(node):
     p = getattr(node, '_parent', None)
     while p is not None and not isinstance(p, (ast.FunctionDef, ast.AsyncFunctionDef)):
         if isinstance(p, ast.If):
+            # orientation-independent: the test is shown in its positive form, the outcome says which side
+            from ..canon import _positive
+            t, flipped = _positive(p.test)
             if any(child is b for b in p.body):
-                return '%s [true]' % ast.unparse(p.test)[:80]
+                return '%s [%s]' % (ast.unparse(t)[:80], 'false' if flipped else 'true')
             if any(child is b for b in p.orelse):
-                return '%s [false]' % ast.unparse(p.test)[:80]
+                return '%s [%s]' % (ast.unparse(t)[:80], 'true' if flipped else 'false')
         if isinstance(p, ast.ExceptHandler):
             return 'except %s' % (ast.unparse(p.type) if p.type is not None else '')
         if isinstance(p, (ast.For, ast.While)) and any(child is b for b in p.orelse):
